@@ -16,7 +16,10 @@ def parts(tier):
     q = tier == "quick"
     return [dict(part="main", cfg="asan256", shards=6 if q else 8),
             dict(part="main", cfg="asan256w8", shards=6 if q else 8),
-            dict(part="main", cfg="asan256k", shards=4 if q else 8)]
+            dict(part="main", cfg="asan256k", shards=4 if q else 8),
+            # ALLOC=DYNAMIC: same generators; results may grow beyond RLC_BN_SIZE digits (bn_grow reallocates),
+            # so no precision error is ever expected there
+            dict(part="main", cfg="dyn256", shards=2 if q else 4)]
 
 
 class G(object):
@@ -145,8 +148,10 @@ def run(ctx, part):
         import ctypes
         return int.from_bytes(ctypes.string_at(dig, R.DB), "little")
 
+    DYN = R.dyn
+
     def fits(v, margin=0):
-        return abs(v).bit_length() <= (CAP - margin) * W
+        return DYN or abs(v).bit_length() <= (CAP - margin) * W
 
     binops = ["add", "sub", "mul_basic", "mul_comba", "mul_karat", "mul"]
     unops = ["sqr_basic", "sqr_comba", "sqr_karat", "sqr", "dbl", "hlv", "neg", "abs", "copy"]
@@ -166,7 +171,7 @@ def run(ctx, part):
         if res.caught:
             # an error is legitimate only when the exact result does not fit the precision
             # (a conservative rejection is accepted when the operation's natural scratch size exceeds the capacity)
-            ctx.check(may_err or not fits(exp), key + "|unexpected-error", {"err": res.err, "exp_bits": abs(exp).bit_length()})
+            ctx.check((may_err and not DYN) or not fits(exp), key + "|unexpected-error", {"err": res.err, "exp_bits": abs(exp).bit_length()})
             return
         v, used, sign, normal = R.bn_get(out)
         ctx.check(v == exp, key + "|value", {"got": hx(v) if v is not None else None, "exp": hx(exp)})
@@ -319,7 +324,10 @@ def run(ctx, part):
                         continue
                     R.bn_put(c, x)
                     res = R.call("bn_set_2b", c, s)
-                    verdict(op, cls, 0, c, 1 << s, [], res)
+                    if res.caught and s >= CAP * W:
+                        ctx.ok()    # explicit argument check of bn_set_2b (ERR_NO_VALID), also with ALLOC=DYNAMIC
+                    else:
+                        verdict(op, cls, 0, c, 1 << s, [], res)
                 elif op == "set_bit":
                     x = abs(g.operand(CAP))
                     ux = max(1, (x.bit_length() + W - 1) // W)
@@ -341,7 +349,7 @@ def run(ctx, part):
                     res = R.call("bn_set_bit", a, s, val)
                     exp = (x | (1 << s)) if val else (x & ~(1 << s))
                     if res.caught:
-                        ctx.check(s >= CAP * W and val == 1, ctx.cur_key + "|unexpected-error", {"err": res.err})
+                        ctx.check(not DYN and s >= CAP * W and val == 1, ctx.cur_key + "|unexpected-error", {"err": res.err})
                     else:
                         v, used, sign, normal = R.bn_get(a)
                         ctx.check(v == exp, ctx.cur_key + "|value", {"got": hx(v) if v is not None else None, "exp": hx(exp)})
@@ -447,7 +455,7 @@ def run(ctx, part):
                     res = R.call("bn_div_rem", pc, pd, pa, pb)
                 if res.caught:
                     # documented conservative rejection: the dividend needs one spare digit
-                    ctx.check(abs(x).bit_length() > (CAP - 2) * W, ctx.cur_key + "|unexpected-error", {"err": res.err})
+                    ctx.check(not DYN and abs(x).bit_length() > (CAP - 2) * W, ctx.cur_key + "|unexpected-error", {"err": res.err})
                     continue
                 v, used, sign, normal = R.bn_get(pc)
                 ctx.check(v == q, ctx.cur_key + "|quotient", {"got": hx(v) if v is not None else None, "exp": hx(q)})
